@@ -168,7 +168,7 @@ func (a *avsRun) run(long bool) {
 	outsiderOp := &avsOp{o: &ops.Oper{Acct: outsider}, sk: blsKey("outsider")}
 
 	// --- registry -------------------------------------------------------------------------------------------
-	nAVS := 1 + r.Intn(2)
+	nAVS := 1 + (r.Intn(3)+1)/2 // two AVSs in two thirds of the histories
 	for k := 0; k < nAVS; k++ {
 		acct := sim.NewAccount(fmt.Sprintf("avs-%s-%d", a.hist, k))
 		w.Fund(acct)
@@ -251,6 +251,11 @@ func (a *avsRun) run(long bool) {
 	for e := 0; e < epochs && !w.Dead; e++ {
 		if len(a.tasks) < 6 && r.Intn(3) > 0 {
 			a.createTask()
+			if len(a.avs) > 1 && r.Intn(4) > 0 && len(a.tasks) > 0 {
+				// the other AVS creates a task with the same periods in the same block: both statistical periods end
+				// with the same epoch
+				a.createTwin(a.tasks[len(a.tasks)-1])
+			}
 		}
 		if r.Intn(14) == 0 || (len(a.tasks) > 0 && len(a.released) == 0 && r.Intn(6) == 0) {
 			a.switchTaskContract()
@@ -350,13 +355,31 @@ func (a *avsRun) optIn(op *avsOp, avs string) {
 	}
 }
 
-func (a *avsRun) createTask() {
+func (a *avsRun) createTask() { a.createTaskFor(nil, 0, 0, 0) }
+
+// createTwin creates a task for another AVS than t's with t's periods.
+func (a *avsRun) createTwin(t *avsTask) {
+	for _, av := range a.avs {
+		if tc := a.taskAcct[low(av.Eth.String())]; tc != nil && tc.Eth.String() != t.addr {
+			a.createTaskFor(av, uint64(t.resp), uint64(t.stat), uint64(t.chal))
+			return
+		}
+	}
+}
+
+func (a *avsRun) createTaskFor(fixed *sim.Account, fresp, fstat, fchal uint64) {
 	w, r, s := a.w, a.r, a.s
 	av := a.avs[r.Intn(len(a.avs))]
+	if fixed != nil {
+		av = fixed
+	}
 	if !a.reg[low(av.Eth.String())] {
 		return
 	}
 	resp, stat, chal := uint64(r.Intn(4)), uint64(r.Intn(4)), uint64(r.Intn(4))
+	if fixed != nil {
+		resp, stat, chal = fresp, fstat, fchal
+	}
 	hash := sha256.Sum256([]byte(fmt.Sprintf("task-%s-%d", a.hist, len(a.tasks))))
 	tc := a.taskAcct[low(av.Eth.String())]
 	if tc == nil {
